@@ -84,6 +84,7 @@ func TestC06(t *testing.T) {
 	kinds = append(kinds, "err", "err", "err", "fin", "rst", "short", "outofseq", "handler_err", "handler_err_cancel", "unsupported", "invalid", "undecodable", "mapper_err", "mapper_cols")
 	rapidCheck(t, func(rt *rapid.T) {
 		c := drawStop(rt, o, kinds)
+		c.ErrLater = false // C06 judges the first Error() call made right after Stream returned
 		slowLog := false
 		switch c.Fault.Kind {
 		case "err", "fin", "rst", "short", "outofseq":
